@@ -256,7 +256,8 @@ fn fe_probe(cfg: &Cfg, f: &mut vhost::vhost_user::Frontend, peer: &std::os::unix
         preload(peer, op.code(), &rep.payload, rep.file.as_ref());
     }
     let mut lent = Lent::default();
-    let out = match util::catch(|| op.exec(f, &mut lent)) {
+    let (res, blocked) = util::exec_bounded(f, op, &mut lent, util::PeerKind::Raw);
+    let out = match res {
         Ok(o) => o,
         Err(p) => {
             report::violation(&format!("C07:fe:{}:panic", op.name()), jo! {"panic" => p.msg, "at" => p.location}, cfg.replay(case));
@@ -264,6 +265,10 @@ fn fe_probe(cfg: &Cfg, f: &mut vhost::vhost_user::Frontend, peer: &std::os::unix
         }
     };
     let written = sys::inq(peer.as_raw_fd());
+    if blocked {
+        // the call waits for a reply its negotiated form does not have (released by the harness)
+        report::count("fe.blocked_calls", 1);
+    }
     report::eval(1);
     report::count(if allowed { "fe.allowed" } else { "fe.refused" }, 1);
     let d = || jo! {"op" => op.j(), "offered_virtio_pf" => st.offered_virtio_pf, "acked_virtio_pf" => st.acked_virtio_pf, "acked_pf" => J::x64(st.acked_pf), "bytes_on_wire" => written, "result" => out.j()};
@@ -282,7 +287,11 @@ fn fe_probe(cfg: &Cfg, f: &mut vhost::vhost_user::Frontend, peer: &std::os::unix
         if shm_form != log_shmfd {
             report::violation("C07:fe:set_log_base:shmfd-form-without-feature", d(), cfg.replay(case));
         }
-        return log_shmfd == shm_form && out.ok;
+        return log_shmfd == shm_form && out.ok && !blocked;
+    }
+    if blocked {
+        report::violation(&format!("C07:fe:{}:call-never-returns", op.name()), d(), cfg.replay(case));
+        return false;
     }
     if written == 0 || !out.ok {
         report::violation(&format!("C07:fe:{}:refused-although-negotiated", op.name()), d(), cfg.replay(case));
